@@ -22,6 +22,13 @@ var cats = []string{"sys-apps", "dev-libs", "app-misc", "virtual", "dev-lang", "
 var names = []string{"alpha", "beta", "gamma", "delta", "eps", "zeta", "eta", "theta", "iota", "kappa"}
 var flags = []string{"ssl", "nls", "X", "static", "python", "doc"}
 var versions = []string{"1.0", "1.2.3", "2.0-r1", "0.9_rc1", "3", "10.1", "1.10", "1.9", "2.4b", "4.0_p2-r3"}
+
+// round 5b: package names that themselves contain hyphens followed by digits, plus signs, underscores,
+// an "-r<n>" piece (none of them ends in a hyphen followed by a PMS version, PMS 3.1.2), and versions
+// using every part of the PMS 3.2 syntax: the cut between name and version is where a loader can go wrong
+var hardNames = []string{"font-adobe-100dpi", "lib-2to3", "gtk+-3x11", "x-r6-compat", "mod_ssl-2utils", "alpha-0ad", "e2fs-1plus2-libs", "iso-8859-15xx", "r-1-base"}
+var hardVersions = []string{"0", "20240101", "1.2.3.4.5", "7z", "1.0_alpha", "1.0_beta2_p1", "2_pre20200101-r1", "1.0b_rc3_p4-r10", "3.1_p-r0"}
+
 var slotPool = []string{"0", "1", "2", "3", "3.10", "3.9", "1.0", "10", "stable", "5", "7"}
 
 type gpkg struct {
@@ -54,11 +61,17 @@ func genUniverse(r *rng.R, n int, multiSlot int) *universe {
 			p.cat, p.name = o.cat, o.name
 		} else {
 			p.cat, p.name = r.Pick(cats), r.Pick(names)
+			if r.Chance(1, 5) {
+				p.name = r.Pick(hardNames)
+			}
 			if r.Chance(1, 14) && len(u.pkgs) > 0 { // same base name in another category (bare-name ambiguity)
 				p.name = u.pkgs[r.Intn(len(u.pkgs))].name
 			}
 		}
 		p.ver = r.Pick(versions)
+		if r.Chance(1, 5) {
+			p.ver = r.Pick(hardVersions)
+		}
 		p.slot = r.Pick(slotPool)
 		if r.Chance(1, 2) {
 			p.slot = r.Pick(slotPool[:4])
@@ -281,11 +294,18 @@ func genDepStringFor(r *rng.R, u *universe, owner *gpkg) string {
 func (p *gpkg) toIn(r *rng.R, u *universe) PkgIn {
 	var in PkgIn
 	in.Cat, in.PF = B(p.cat), B(p.pf())
+	// the generator knows name and version separately: the harness's reference cut must agree
+	if n, v, ok := pfSplit(p.pf()); !ok || n != p.name || v != p.ver {
+		panic(fmt.Sprintf("pfSplit(%q) = %q, %q, %v; generated from name %q version %q", p.pf(), n, v, ok, p.name, p.ver))
+	}
 	slot := p.slot
 	if p.subslot != "" {
 		slot += "/" + p.subslot
 	}
-	in.Slot = B(slot + "\n")
+	if slotOf(slot+"\n") != p.slot {
+		panic(fmt.Sprintf("slotOf(%q) = %q, generated from slot %q", slot, slotOf(slot+"\n"), p.slot))
+	}
+	in.Slot = B(slot + r.Pick([]string{"\n", "\n", "\n", "\n", "", " \n", "\n\n"}))
 	iuse := []string{}
 	for _, f := range p.iuse {
 		switch r.Intn(4) {
